@@ -33,7 +33,7 @@ def dtext(rnd, pool, depth):
 
 
 def letters(rnd):
-    return rnd.choice(['', '', 'a', 'b', 'c', 'B', 'aa'])
+    return rnd.choice(['', '', 'a', 'b', 'c', 'B', 'aa', 'z', 'Z', 'az', 'zz', 'y'])
 
 
 def dobj(rnd, depth):
